@@ -158,6 +158,71 @@ def through_bound_cases():
     return out
 
 
+def union_bind_histories():
+    """Base histories (prelude, [(a, b) ...]) of invariant relates on lifetime-free types: one or two var-var unions
+    among three general unknowns followed by the binding of one member X to a structural type containing a member Y
+    (every X, Y: a cycle exactly when X and Y are in one class), two universe layouts; and the const flavour
+    (unions of const unknowns through arrays / ADT const parameters, then type unknowns bound to types naming them)."""
+    tv = L.ty_var
+    item = lambda i, *a: N(("HAdt", i), list(a))
+    V = lambda u: ("SNewVar", u)
+    out = []
+    for univ in ((0, 0, 0), (0, 1, 1)):
+        pre = ["SNewUniverse"] + [V(u) for u in univ]
+        A, B, C = tv(0), tv(1), tv(2)
+        for unions in ([(A, B)], [(A, B), (B, C)], [(A, B), (A, C)], [(B, A), (C, B)]):
+            for X in (A, B, C):
+                for Y in (A, B, C):
+                    for wrap in (lambda y: item(1, y), lambda y: item(2, L.BOOL, N(("HTuple", 1), [y]))):
+                        out.append((pre, list(unions) + [(X, wrap(Y))]))
+    # consts: ?0 ?1 type unknowns, ?2 ?3 const unknowns
+    pre = ["SNewUniverse", V(0), V(0), V(0), V(1)]
+    A, B, K1, K2 = tv(0), tv(1), L.const_var(2), L.const_var(3)
+    arr = lambda k: N("HArray", [L.BOOL, k])
+    c1 = N(("HCConcrete", 1), [L.USIZE])
+    for hist in ([(arr(K1), arr(K2)), (A, arr(K1)), (A, arr(K2))],
+                 [(arr(K1), arr(K2)), (A, item(5, B, K1)), (B, arr(K2))],
+                 [(arr(K1), arr(K2)), (A, item(5, A, K1))],
+                 [(arr(K1), arr(K2)), (K2, c1), (A, arr(K1)), ],
+                 [(item(5, A, K1), item(5, B, K2)), (A, arr(K2)), (B, arr(K1))],
+                 [(item(5, A, K1), item(5, B, K2)), (K1, c1), (K2, N(("HCConcrete", 2), [L.USIZE]))]):
+        out.append((pre, hist))
+    return out
+
+
+def numeric_chain_histories():
+    """Base histories: a general unknown is related with an integer / float unknown (and so bound to it), the numeric
+    unknown is bound to a scalar afterwards, then the general unknown is used (directly, nested, against the right
+    and the wrong scalar, against other general unknowns of the same and of another universe)."""
+    tv = L.ty_var
+    item = lambda i, *a: N(("HAdt", i), list(a))
+    V = lambda u: ("SNewVar", u)
+    pre = ["SNewUniverse", V(0), V(0), V(0), V(0), V(1)]
+    i32, f32 = N(("HScalar", ("Int", "I32"))), N(("HScalar", ("Float", "F32")))
+    G, G2, G3 = tv(0), tv(1), tv(4)
+    out = []
+    for (nv, kind, good, bad) in ((2, "Integer", i32, f32), (3, "FloatVar", f32, i32)):
+        X = tv(nv, kind)
+        uses = [(G, good), (good, G), (G, bad), (item(1, G), item(1, good)), (G2, G), (G2, item(1, G)), (item(1, G), G2), (G3, G), (G, X),
+                (item(2, G, G), item(2, X, good)), (item(2, G2, G2), item(2, G, good))]
+        for use in uses:
+            out.append((pre, [(G, X), (X, good), use]))
+            out.append((pre, [(X, G), (good, X), use]))
+        out.append((pre, [(G, X), (G2, G), (X, good)]))
+        out.append((pre, [(G, X), (G2, X), (G, G2), (X, good)]))
+    return out
+
+
+def numeric_chain_cases():
+    """The numeric-chain histories as scripts, in three step orders."""
+    out = []
+    for (pre, hist) in numeric_chain_histories():
+        orders = [hist, [hist[0]] + hist[2:] + [hist[1]], hist[2:] + hist[:2]]
+        for h in orders:
+            out.append(([], [], pre + [("SRelate", I, a, b) for (a, b) in h]))
+    return out
+
+
 def random_cases(ctx, n, r, profile):
     out = []
     for _ in range(n):
@@ -243,7 +308,7 @@ def run(ctx):
     ok, why = ctx.proof_stage("Props.C14", THEOREMS)
     core.build_harness(bins=["infer"])
     r = ctx.rng
-    fams = [("pinned", pinned_cases()), ("through-bound", through_bound_cases()), ("sweep", sweep_cases(both=False))]    # both orders of the sweep: C15
+    fams = [("pinned", pinned_cases()), ("through-bound", through_bound_cases()), ("numeric-chain", numeric_chain_cases()), ("sweep", sweep_cases(both=False))]    # both orders of the sweep: C15
     total = ctx.n(1500, 8000)
     fams.append(("c14-invariant", random_cases(ctx, total // 2, r, PROFILES["c14-invariant"])))
     fams.append(("c14-covariant-lifetime-free", random_cases(ctx, total // 5, r, PROFILES["c14-covariant-lifetime-free"])))
